@@ -139,9 +139,6 @@ def _piece(t, lo, hi, p):
     if hi >= w:
         if lo == 0:
             return T.scale(1 << p)
-        if p >= lo:
-            # 2^p * (t div 2^lo) = 2^(p-lo) * (t - t mod 2^lo)
-            return (T - Lin.atom(("mod", tkey, 1 << lo))).scale(1 << (p - lo))
         return Lin.atom(("div", tkey, 1 << lo), 1 << p)
     if lo == 0:
         return Lin.atom(("mod", tkey, 1 << hi), 1 << p)
